@@ -102,6 +102,28 @@ def run(ctx):
                 ctx.violation('impl-counterexample', 'single=True on an array of %d grids does not give the first / None' % k, {'dumped': txt[:2000]})
                 return
     ctx.sample({'dumped': sorted(seen, key=len)[len(seen) // 2][:1500] if seen else ''})
+    # dense sweep of microsecond values in times and date-times (scalars): every value must come back exactly
+    import datetime as _dt
+    import pytz as _pytz
+    sweep = []
+    for _ in range(5000 if thorough else 900):
+        us = rng.choice([rng.randrange(1000000), rng.randrange(1000), rng.randrange(100000) * 10, 249, 251, 999999, 1])
+        hh, mm, ss = rng.randint(0, 23), rng.randint(0, 59), rng.randint(0, 59)
+        if rng.random() < 0.7:
+            sweep.append(_dt.time(hh, mm, ss, us))
+        else:
+            sweep.append(_pytz.utc.localize(_dt.datetime(2021, 3, 4, hh, mm, ss, us)))
+    for v in sweep:
+        ctx.coverage['evaluations'] += 1
+        ctx.count('microsecond-sweep')
+        try:
+            back = h.parse_scalar(h.dump_scalar(v, mode=h.MODE_JSON), mode=h.MODE_JSON)
+        except Exception as e:  # noqa
+            ctx.violation('impl-counterexample', 'the scalar %r does not survive dump + parse: %s' % (v, type(e).__name__), {'value': repr(v)})
+            return
+        if back != v or getattr(back, 'microsecond', None) != v.microsecond:
+            ctx.violation('impl-counterexample', 'the scalar %r came back as %r' % (v, back), {'value': repr(v)})
+            return
     ctx.coverage['distinct_nontrivial'] = len(seen)
 
 
